@@ -19,22 +19,24 @@ MAX_BLOCKS = 80
 MAX_DEPTH = 3
 
 
-def _shift(node, lo, bo):
-    """deep copy of a MIR json fragment with locals shifted by lo and block numbers by bo"""
+def _shift(node, lo, bo, po=0):
+    """deep copy of a MIR json fragment with locals shifted by lo, block numbers by bo and promoted-constant indices by po"""
     if isinstance(node, list):
-        return [_shift(x, lo, bo) for x in node]
+        return [_shift(x, lo, bo, po) for x in node]
     if not isinstance(node, dict):
         return node
     out = {}
     for k, v in node.items():
         if k == "l" and isinstance(v, int):
             out[k] = v + lo
+        elif k == "text" and po and isinstance(v, str) and node.get("promoted"):
+            out[k] = re.sub(r"promoted\[(\d+)\]", lambda m: "promoted[%d]" % (int(m.group(1)) + po), v)
         elif k in ("t", "otherwise", "unwind") and isinstance(v, int) and "k" in node and node["k"] in ("goto", "switch", "call", "assert", "drop"):
             out[k] = v + bo if v >= 0 else v
         elif k == "targets" and isinstance(v, list) and node.get("k") == "switch":
             out[k] = [x + bo for x in v]
         else:
-            out[k] = _shift(v, lo, bo)
+            out[k] = _shift(v, lo, bo, po)
     return out
 
 
@@ -111,6 +113,9 @@ def inlined(prog, path, depth=MAX_DEPTH, keep=None, private_only=False, nested=F
             blk = blocks[bb]
             t = blk["term"]
         lo, bo = len(locals_), len(blocks)
+        # the callee's promoted constants join the root's table; `promoted[k]` references in the copied blocks are renumbered
+        po = len(j.setdefault("promoted", []))
+        j["promoted"].extend(copy.deepcopy(callee.j.get("promoted", [])))
         locals_.extend(copy.deepcopy(callee.locals))
         for v in callee.j["vars"]:
             vars_.append({"name": v["name"], "place": _shift(v["place"], lo, 0)})
@@ -121,7 +126,7 @@ def inlined(prog, path, depth=MAX_DEPTH, keep=None, private_only=False, nested=F
         blk["term"] = {"k": "goto", "t": bo, "inl_call": callee.path, "inl_dest": dest, "inl_ret_t": target, "line": line}
         expanded.add(callee.path)
         for i, cb in enumerate(callee.blocks):
-            nb = _shift(cb, lo, bo)
+            nb = _shift(cb, lo, bo, po)
             nb["inl_from"] = cb.get("inl_from") or callee.path
             if nb["term"]["k"] == "return":
                 nb["stmts"].append({"k": "assign", "place": dest, "rv": {"k": "use", "a": {"k": "move", "place": {"l": lo, "p": []}}}, "line": line, "exp": False, "expk": "", "inl_ret": callee.path})
